@@ -7,11 +7,20 @@ use crate::rt::BOpts;
 use crate::sem_flat::{gen_child, gen_parent, FlatOpts};
 use std::sync::Mutex;
 
+/// the positional twin of the child space: tuple structs all the way down, indices as paths
+fn child_pos_opts(tier: &str) -> (FlatOpts, Option<usize>) {
+    if tier == "quick" {
+        (FlatOpts { max_members: 3, max_ghosts: 1, max_depth: 2, positional: true }, Some(5))
+    } else {
+        (FlatOpts { max_members: 4, max_ghosts: 2, max_depth: 3, positional: true }, Some(7))
+    }
+}
+
 fn child_opts(tier: &str) -> (FlatOpts, Option<usize>) {
     if tier == "quick" {
-        (FlatOpts { max_members: 3, max_ghosts: 1, max_depth: 2 }, Some(6))
+        (FlatOpts { max_members: 3, max_ghosts: 1, max_depth: 2, positional: false }, Some(6))
     } else {
-        (FlatOpts { max_members: 4, max_ghosts: 2, max_depth: 3 }, Some(8))
+        (FlatOpts { max_members: 4, max_ghosts: 2, max_depth: 3, positional: false }, Some(8))
     }
 }
 
@@ -114,6 +123,17 @@ pub fn collect(tier: &str, caps: &Caps, rep: &Report) -> Vec<BItem> {
     );
     rep.add_stats("child", &cb.map(|b| format!("dev({})", b)).unwrap_or("full".into()), &st);
     eprintln!("  space child: {} choice vectors, {} pruned", st.leaves, st.pruned);
+    let (co, cb) = child_pos_opts(tier);
+    let st = explore(
+        |ctx| gen_child(ctx, &co),
+        cb,
+        caps,
+        |choices, c| {
+            items.lock().unwrap().push(BItem { space: "child-pos".into(), choices: choices.to_vec(), tags: c.tags.clone(), inputs: vec![c.item("S", true).render()], module: c.render_module(), nontrivial: true });
+        },
+    );
+    rep.add_stats("child-pos", &cb.map(|b| format!("dev({})", b)).unwrap_or("full".into()), &st);
+    eprintln!("  space child-pos: {} choice vectors, {} pruned", st.leaves, st.pruned);
     let pl = if tier == "quick" { 3 } else { 4 };
     let pb = if tier == "quick" { Some(6) } else { Some(9) };
     let st = explore(
@@ -151,10 +171,10 @@ pub fn replay(f: &Failure) -> i32 {
     let mut obs = vec![];
     for round in 0..2 {
         let item = match f.space.as_str() {
-            "child" => {
+            "child" | "child-pos" => {
                 let mut found = None;
                 for t in ["quick", "thorough"] {
-                    let (o, _) = child_opts(t);
+                    let (o, _) = if f.space == "child" { child_opts(t) } else { child_pos_opts(t) };
                     let (c, full) = replay_one(|ctx| gen_child(ctx, &o), &f.choices);
                     if let Some(c) = c {
                         if full == f.choices && c.item("S", true).render() == f.input {
